@@ -42,7 +42,7 @@ META = {
     'level_note': 'metomi.isodatetime (TimeRecurrence iteration) and the own '
                   'calendar arithmetic of vlib/models/c18_cal.py are trusted.',
     'design_ref': 'DESIGN.md §5 C17',
-    'budget': {'quick': 90, 'thorough': 900},
+    'budget': {'quick': 120, 'thorough': 1200},
 }
 RULE = ('case = (calendar, time zone, expanded-year digits, dump format, '
         'initial point, final point, recurrence expression with exclusions); '
@@ -79,7 +79,8 @@ MIN = {
 }
 CASE_TIMEOUT = 60
 
-NCASES = {'quick': 1200, 'thorough': 16000}
+NCASES = {'quick': 960, 'thorough': 14400}
+NQPOINTS = 11   # query points per recurrence (each asked ~4 methods x 3)
 TZS = ('Z', 'Z', '+0530', '-03', '+1245', '-0930', '+01', '-0330', '+14')
 FORMATS = (None, None, None, 'CCYY-MM-DDThh:mmZ')
 OFFSETS = (0, 60, -60, 330, -180, 765, -570)
@@ -132,13 +133,19 @@ def clear_iso_caches():
 # generation
 
 def gen_config(i, rng):
-    cal = C.CALENDARS[i % 4]
+    cal = C.CALENDARS[(i + i // 16) % 4]
     xd = rng.choice([0, 0, 0, 0, 2])
-    fmt = rng.choice(FORMATS)
+    # single zone: every point is spelled in the cycle point time zone (as
+    # Cylc itself does after standardising); only then are nominal
+    # (month/year) steps generated, see ASSUMPTIONS
+    single = rng.random() < 0.4
+    fmt = None if single else rng.choice(FORMATS)
     if fmt and xd:
         fmt = '+X' + fmt
     tz = rng.choice(TZS)
     return {'calendar': cal, 'xdigits': xd, 'format': fmt, 'tz': tz,
+            'single_zone': single,
+            'nominal': single and rng.random() < 0.4,
             'ymin': -(10 ** (4 + xd) - 1) if xd else 0,
             'ymax': 10 ** (4 + xd) - 1 if xd else 9999}
 
@@ -159,7 +166,9 @@ def render_alt(rng, cfg, inst):
     cal, xd = cfg['calendar'], cfg['xdigits']
     wf = C.tz_minutes(cfg['tz'])
     r = rng.random()
-    if r < 0.3:
+    if cfg['single_zone']:
+        off, explicit = wf, r < 0.5
+    elif r < 0.3:
         off, explicit = wf, False
     elif r < 0.6:
         off, explicit = 0, True
@@ -176,7 +185,11 @@ def render_alt(rng, cfg, inst):
     else:
         s = f'{C.year_render(y, xd)}{m:02d}{d:02d}T{hh:02d}{mm:02d}'
     if explicit:
-        if off == 0:
+        if off == 0 and cfg['tz'] == 'Z':
+            s += 'Z'
+        elif off == wf and not ext:
+            s += cfg['tz']
+        elif off == 0:
             s += 'Z'
         else:
             s += C.tz_render(off, 'hh:mm' if ext else 'hhmm')
@@ -197,13 +210,15 @@ def gen_icp(rng, cfg):
     ml = C.month_lengths(y, cal)[m - 1]
     d = rng.choice([1, ml, rng.randint(1, ml), rng.randint(1, ml),
                     min(28, ml), rng.randint(1, 28)])
+    if cfg['nominal'] and rng.random() < 0.4:
+        d = rng.choice([ml, ml, max(1, ml - 1), min(29, ml)])
     hh = rng.choice([0, 0, 6, 12, 18, 23, rng.randint(0, 23)])
     mm = rng.choice([0, 0, 0, 30, 59, rng.randint(0, 59)])
     return C.instant((y, m, d, hh, mm, 0), C.tz_minutes(cfg['tz']), cal)
 
 
-def gen_step(rng, nominal_ok=True):
-    if nominal_ok and rng.random() < 0.16:
+def gen_step(rng, nominal=False):
+    if nominal:
         t, mo = rng.choice(NOMINAL_STEPS)
         return {'text': t, 'months': mo}
     t, s = rng.choice(FIXED_STEPS)
@@ -219,6 +234,10 @@ def gen_tspec(rng, cfg, kinds=('hour', 'hour', 'hour', 'minute', 'dom',
     kind = rng.choice(kinds)
     if kind == 'dow' and cfg['calendar'] != 'gregorian':
         kind = 'hour'
+    if kind in ('dom', 'moy') and not cfg['single_zone']:
+        kind = 'hour'   # these imply a nominal step
+    if kind == 'dow' and cfg['nominal']:
+        kind = 'hour'   # week dates + month/year steps: see ASSUMPTIONS
     hh = rng.choice([0, 0, 6, 12, 18, 23, rng.randint(0, 23)])
     mm = rng.choice([0, 0, 0, 30, rng.randint(0, 59)])
     hm = f'T{hh:02d}' + (f'{mm:02d}' if mm or rng.random() < 0.3 else '')
@@ -240,13 +259,13 @@ def gen_tspec(rng, cfg, kinds=('hour', 'hour', 'hour', 'minute', 'dom',
             'text': f'W-{wd}{hm}'}
 
 
-def gen_rel(rng, sign_bias, scale):
+def gen_rel(rng, sign_bias, scale, nominal_ok=False):
     """A relative point: offsets of about `scale` seconds."""
     offs = []
     texts = []
     for _ in range(rng.choice([1, 1, 1, 2])):
         sign = sign_bias if rng.random() < 0.8 else -sign_bias
-        if rng.random() < 0.1:
+        if nominal_ok and rng.random() < 0.15:
             step = {'text': 'P1M', 'months': 1}
         else:
             k = rng.choice([0, 1, 1, 2, 3, 5])
@@ -281,15 +300,16 @@ def gen_spec(rng, cfg, icp):
     else:
         form = rng.choice(M.SPAN_FORMS)
     spec = {'form': form}
-    step = gen_step(rng)
+    sz = cfg['single_zone']
+    step = gen_step(rng, nominal=cfg['nominal'])
     ss = step_secs(step)
-    npts = rng.choice([1, 2, 3, 4, 5, 8, 12, 20, 40, rng.randint(2, 45)])
+    npts = rng.choice([1, 2, 3, 4, 5, 8, 12, 20, rng.randint(2, 30)])
     jitter = rng.choice([0, 0, 60, ss // 2, rng.randint(0, ss) // 60 * 60])
     fcp = icp + ss * npts + jitter
     if form in M.START_FORMS and rng.random() < 0.3:
         fcp = None
     if 'Rn' in form:
-        spec['n'] = rng.choice([1, 2, 2, 3, 4, 5, 7, 10, 25, 40])
+        spec['n'] = rng.choice([1, 2, 2, 3, 4, 5, 7, 10, 25])
     if 'Pd' in form:
         spec['step'] = step
 
@@ -300,14 +320,14 @@ def gen_spec(rng, cfg, icp):
             inst = icp + k * ss + rng.choice([0, 0, 0, 60, 3600, -1800])
             return gen_abs(rng, cfg, inst)
         if r < 0.6:
-            return gen_rel(rng, 1, ss)
+            return gen_rel(rng, 1, ss, sz)
         if r < 0.92 and allow_trunc:
             return {'kind': 'trunc', 't': gen_tspec(rng, cfg)}
         if allow_trunc:
             ts = [gen_tspec(rng, cfg, ('hour',)) for _ in range(2)]
             return {'kind': 'min', 'ts': ts,
                     'text': 'min(' + ','.join(t['text'] for t in ts) + ')'}
-        return gen_rel(rng, 1, ss)
+        return gen_rel(rng, 1, ss, sz)
 
     def end_point():
         base = fcp
@@ -317,7 +337,7 @@ def gen_spec(rng, cfg, icp):
             inst = base + k * ss + rng.choice([0, 0, 0, 60, -3600])
             return gen_abs(rng, cfg, inst)
         if r < 0.7:
-            return gen_rel(rng, -1, ss)
+            return gen_rel(rng, -1, ss, sz)
         return {'kind': 'trunc', 't': gen_tspec(rng, cfg, ('hour', 'hour',
                                                            'minute', 'dom'))}
 
@@ -471,20 +491,6 @@ def features(spec, base, S, items, bounded):
     }
 
 
-def mechanism(feat):
-    parts = []
-    if feat['excl_points']:
-        parts.append('excl-point')
-    if feat['excl_seqs']:
-        parts.append('excl-seq')
-    if feat['nominal']:
-        parts.append('nominal-step')
-    if not parts:
-        parts.append('plain')
-    return ('bounded' if feat['bounded'] else 'unbounded') + '+' + '+'.join(
-        parts)
-
-
 def run_case(ctx, i, rng):
     from cylc.flow.cycling import iso8601 as I
     from cylc.flow.exceptions import CylcError
@@ -529,7 +535,23 @@ def run_case(ctx, i, rng):
         return
     rec = oracle_obj.recurrence
     raw = list(itertools.islice(iter(rec), M.HORIZON + 1))
-    bounded = len(raw) <= M.HORIZON
+    # bounded by the documented meaning of the form (never read from cylc)
+    bounded = not (spec['form'] in (
+        'START/Pd', 'Pd', 'R/START/Pd', 'R//Pd', 'TRUNC', 'R/TRUNC',
+        'R/START/END'))
+    if bounded and len(raw) > M.HORIZON:
+        ctx.count('discard_window_too_large')
+        return
+    if not bounded and len(raw) <= M.HORIZON and model is None:
+        ctx.count('discard_degenerate_span')
+        return
+    if not bounded and len(raw) <= M.HORIZON:
+        ctx.violation(
+            f'C17:meaning:{spec["form"]}:unbounded-form-is-finite',
+            f'{base_text} (initial {icp_s}, final {fcp_s}) has no '
+            f'repetition limit but the parsed recurrence {rec} has only '
+            f'{len(raw)} points', {**desc, 'parsed': str(rec)})
+        return
     raw = raw[:M.HORIZON]
     base = []
     for tp in raw:
@@ -553,8 +575,8 @@ def run_case(ctx, i, rng):
         if model['from_icp']:
             a = [t for t in a if t >= icp]
             b = [t for t in b if t >= icp]
-        m = min(len(a), len(b)) if not (bounded and model['bounded']) else None
-        if (a[:m] != b[:m]) or (bounded != model['bounded']):
+        m = None if bounded else min(len(a), len(b))
+        if a[:m] != b[:m] or bounded != model['bounded']:
             kinds = '+'.join(sorted({
                 spec[k]['kind'] for k in ('start', 'end') if spec.get(k)})
                 or ['context'])
@@ -579,10 +601,10 @@ def run_case(ctx, i, rng):
         ctx.count('discard_unbounded_tail_excluded')
         return
     feat = features(spec, base, set(S), items, bounded)
-    mech = mechanism(feat)
     desc = {'config': cfg, 'initial': icp_s, 'final': fcp_s,
             'recurrence': text, 'features': feat}
-    _CUR.update(text=text, icp=icp_s, fcp=fcp_s, mechanism=mech)
+    _CUR.update(text=text, icp=icp_s, fcp=fcp_s,
+                mechanism=('excl' if items else 'no-excl'))
     nontrivial = len(S) >= 2 or len(S) != len(base)
     ctx.evaluated((cal, cfg['tz'], xd, cfg['format'], icp_s, fcp_s, text),
                   nontrivial=nontrivial)
@@ -642,20 +664,23 @@ def run_case(ctx, i, rng):
     Sset, Bset = set(S), set(base)
     limit = None if bounded else (S[-2] if len(S) > 2 else S[0] - 1)
     cands = set()
-    pool = list(S[:45])
+    pool = list(S[:40])
     rng.shuffle(pool)
-    cands.update(pool[:14])
-    cands.update(t for t in base[:45] if t not in Sset)
+    cands.update(pool[:8])
+    exc = [t for t in base[:40] if t not in Sset]
+    rng.shuffle(exc)
+    cands.update(exc[:5])
     for a, b in zip(base[:30], base[1:31]):
-        if rng.random() < 0.3:
+        if rng.random() < 0.12:
             cands.add((a + b) // 2 // 60 * 60)
     for t in (base[0], base[-1], S[0] if S else base[0],
               S[-1] if S else base[-1]):
         for dlt in (-60, 60, -86400 * 3, 86400 * 40):
-            if rng.random() < 0.6:
+            if rng.random() < 0.25:
                 cands.add(t + dlt)
-    cands.update((icp, icp - 60))
-    if fcp is not None:
+    if rng.random() < 0.5:
+        cands.update((icp, icp - 60))
+    if fcp is not None and rng.random() < 0.5:
         cands.update((fcp, fcp + 60))
     if limit is not None:
         cands = {t for t in cands if t <= limit}
@@ -677,14 +702,18 @@ def run_case(ctx, i, rng):
             return 'on-excluded'
         return 'between'
 
+    def edge(nexcl):
+        return ('all-points-excluded' if not S else
+                'none-excluded' if not nexcl else
+                'one-excluded' if nexcl == 1 else 'two-or-more-excluded')
     queries.append(('get_start_point', None, None, S[0] if S else None,
-                    f'head-excluded-{min(feat["head_excluded"], 2)}'))
+                    'first-' + edge(feat['head_excluded'])))
     queries.append(('get_stop_point', None, None,
                     (S[-1] if S else None) if bounded else None,
-                    f'tail-excluded-{min(feat["tail_excluded"], 2)}'
+                    'last-' + edge(feat['tail_excluded'])
                     if bounded else 'unbounded'))
-    for p in cands[:26]:
-        alt = rng.random() < 0.12
+    for p in cands[:NQPOINTS]:
+        alt = rng.random() < 0.12 and not cfg['single_zone']
         ps = render_alt(rng, cfg, p)[0] if alt else render_std(cfg, p)
         sit = situation(p) + ('+alt-spelling' if alt else '')
         qs = [('is_valid', p in Sset),
@@ -699,6 +728,18 @@ def run_case(ctx, i, rng):
         for method, want in qs:
             if rng.random() < 0.75:
                 queries.append((method, p, ps, want, sit))
+
+    def base_answer(method, p):
+        """The answer if there were no exclusions."""
+        return {
+            'is_valid': lambda: p in Bset,
+            'is_on_sequence': lambda: p in Bset,
+            'get_next_point': lambda: M.nxt(base, p),
+            'get_next_point_on_sequence': lambda: M.nxt(base, p),
+            'get_first_point': lambda: M.first(base, p),
+            'get_prev_point': lambda: M.prev(base, p),
+            'get_nearest_prev_point': lambda: M.prev(base, p),
+        }[method]()
 
     def ask(obj, q):
         method, p, ps, want, sit = q
@@ -765,8 +806,13 @@ def run_case(ctx, i, rng):
         def show(v):
             return render_std(cfg, v) if isinstance(v, int) and not (
                 isinstance(v, bool)) else v
+        kparts = [method, sit]
+        if feat['nominal'] and p is not None:
+            kparts.append('nominal-step')
+        if items and p is not None and want != base_answer(method, p):
+            kparts.append('excl')   # exclusions matter for this answer
         ctx.violation(
-            f'C17:{method}:{mech}:{sit}:{temp}',
+            'C17:' + ':'.join(kparts) + ':' + temp,
             f'{text} (initial {icp_s}, final {fcp_s}, {cal}) = '
             f'{[render_std(cfg, t) for t in S[:5]]}'
             f'{"…" if len(S) > 5 else ""}: {method}({ps}) gave '
